@@ -171,6 +171,10 @@ def gen_test(rng, idx, failure=None, kinds=None):
 def gen_contract(rng, ntests=3, name="T", kinds=None, failure=None):
     setup = Fn("setUp", [], [SETUP_SLOT_VALUE, 1, "SSTORE", "STOP"])
     tests = [gen_test(rng, i, failure=failure, kinds=kinds) for i in range(ntests)]
+    if kinds is None and ntests >= 2 and rng.random() < 0.25:
+        # state-interaction contract: an earlier test overwrites what setUp stored, a later test is guarded by it
+        tests[0] = gen_test(rng, 0, failure=failure, kinds=["disarm"])
+        tests[1] = gen_test(rng, 1, failure=failure, kinds=["storage2", "storage"])
     fns = [setup] + [t.fn for t in tests] + [t.helper for t in tests if hasattr(t, "helper")]
     # helper functions must have distinct names
     seen = 0
